@@ -41,7 +41,7 @@ def react(path: str):
         if new:
             out[pid] = "FALSE ALARM: " + "; ".join(new)[:300]
         elif code == 2 and bcode != 2:
-            out[pid] = "exit 2: " + "; ".join(ctx.soft_errors)[:300]
+            out[pid] = "exit 2: " + (getattr(ctx, "analysis_error", None) or "; ".join(ctx.soft_errors))[:300]
     return path, out
 
 
